@@ -195,3 +195,19 @@ Example c17_borrowed_connection_can_always_be_parked_nonvacuous :
   park (expired_capacity 1 2) [(true, 0); (false, 1)] (false, 1) = ParkedDiscardingData.
 Proof. vm_compute. repeat split; reflexivity. Qed.
 Print Assumptions c17_borrowed_connection_can_always_be_parked_nonvacuous.
+
+(* An open() that is REFUSED at any of its fallible steps (service resource, dynamic configuration:
+   ExceedsMaxNumberOfNodes, IsMarkedForDestruction, ...) leaves no service tag behind, so the refused
+   node's directory can be removed when the node goes: the ownership of the tag is released only after
+   the last fallible step (row BuilderWithServiceType::open.step_order of the generated table).  With the
+   release moved before the fallible steps the tag of a refused open stays for ever (second example;
+   harness family openfail). *)
+Theorem c17_refused_open_leaves_no_service_tag : forall k left,
+  open_run open_steps_code k false false = Some left -> left = false.
+Proof. exact refused_open_no_tag. Qed.
+Print Assumptions c17_refused_open_leaves_no_service_tag.
+Example c17_refused_open_leaves_no_service_tag_nonvacuous :
+  open_run open_steps_code 1 false false = Some false /\ open_run open_steps_code 2 false false = None /\
+  open_run [OCreateTag; OReleaseTag; OFallible; OFallible] 1 false false = Some true.
+Proof. vm_compute. repeat split; reflexivity. Qed.
+Print Assumptions c17_refused_open_leaves_no_service_tag_nonvacuous.
